@@ -9,7 +9,7 @@ the specified root of `S'` and every meaningful slot specified (`Store/WalkerTre
 namespace Nomt.Walker
 open Nomt Nomt.TriePos
 
-variable {Node VH : Type} [DecidableEq Node] [DecidableEq VH] (H : Hasher Node VH)
+variable {Node VH : Type} [DecidableEq Node] [DecidableEq VH] (H : Hasher Node VH) (D : Path → Prop)
 
 /-! ## `replace_terminal` -/
 
@@ -47,9 +47,9 @@ theorem tw_visit_terminator (cfg : TWCfg Node) (skip : Nat) (a : TW Node) :
 theorem tw_replace_spec (hs : H.Sound) {S' : List (Key × VH)} (hk : KeysOK S') (cfg : TWCfg Node)
     (a : TW Node) (ht : a.pos.length ≤ 256) :
     let a' := a.replaceTerminal H cfg (sub S' a.pos)
-    a'.pos = a.pos ∧ Good H S' a'.store a.pos ∧ SubOK H S' a'.store a.pos ∧
+    a'.pos = a.pos ∧ Good H S' a'.store a.pos ∧ SubOK H D S' a'.store a.pos ∧
     (∀ q, ¬ a.pos <+: q → a'.store q = a.store q) ∧
-    (∀ e ∈ a'.log, e ∈ a.log ∨ LogOK H S' e) ∧ (∀ e ∈ a.log, e ∈ a'.log) ∧ a'.cpr = a.cpr := by
+    (∀ e ∈ a'.log, e ∈ a.log ∨ LogOK H D S' e) ∧ (∀ e ∈ a.log, e ∈ a'.log) ∧ a'.cpr = a.cpr := by
   intro a'
   have ha' : a' = TW.visitAll H cfg a.pos.length a
       (if sub S' a.pos = [] then [.terminator] else treeEv H a.pos.length (256 - a.pos.length) 0 (sub S' a.pos) none) := by
@@ -63,13 +63,13 @@ theorem tw_replace_spec (hs : H.Sound) {S' : List (Key × VH)} (hk : KeysOK S') 
     refine ⟨rfl, ?_, ?_, ?_, fun e he => Or.inl he, fun e he => he, rfl⟩
     · show (a.setNode H.term).store a.pos = _
       simp [TW.setNode, upd_same, specNode_nil_eq H S' _ he]
-    · intro r hpre hner hlen hmean
+    · intro r hpre hner hlen hD hmean
       exact absurd hmean (not_mean_below hk a.pos r (by rw [he]; simp) hpre hner hlen)
     · intro q hq
       have : q ≠ a.pos := by intro e; apply hq; rw [e]; exact List.prefix_refl _
       simp [TW.setNode, upd_other _ _ _ _ this]
   · rw [if_neg he] at ha'
-    have := tw_visit_tree H hs hk cfg a.pos (256 - a.pos.length) a.pos none a.pos a rfl (List.prefix_refl _) ht he
+    have := tw_visit_tree H D hs hk cfg a.pos (256 - a.pos.length) a.pos none a.pos a rfl (List.prefix_refl _) ht he
       (List.prefix_refl _) ⟨rfl, rfl⟩
     simp only [Nat.sub_self] at this
     rw [ha']
